@@ -31,6 +31,22 @@ def mods():
     return CP, C, D, E, R, U
 
 
+def make_source_repo_class(Repo):
+    """an in-memory repository that IS a SourceRepository for isinstance() (compile-wide extras apply to what it answers)"""
+    import req_compile.repos.source as S
+
+    class MemSourceRepo(Repo, S.SourceRepository):
+        def __init__(self, universe, allow_prerelease):
+            import req_compile.repos.repository as R0
+            R0.Repository.__init__(self, "source", allow_prerelease=allow_prerelease)   # not SourceRepository.__init__: no tree to walk
+            self.u = universe
+            self.log = []
+
+        def __repr__(self):
+            return "MemSourceRepo"
+    return MemSourceRepo
+
+
 def make_repo_class(R, C, E, U):
     class MemRepo(R.Repository):
         def __init__(self, universe: Dict[str, List[Tuple[str, str, List[str], bool]]], allow_prerelease: bool) -> None:
@@ -158,6 +174,23 @@ def gen_deepconflict(rng, alphabet: List[str]) -> Dict[str, Any]:
             "allow_pre": False, "max_downgrade": rng.choice([None, None, 1, 2, 3]), "only_binary": None}
 
 
+def gen_srcextras(rng, alphabet: List[str]) -> Dict[str, Any]:
+    """compile-wide extras (perform_compile(extras=...) / --extra): a source-tree repository in front of an index, the two
+    offering disjoint projects, requirements crossing in both directions, requirements under `extra == ..` markers"""
+    base = gen_case(rng, alphabet, "extras")
+    keys = list(base["universe"])
+    rng.shuffle(keys)
+    cut = rng.randrange(1, len(keys)) if len(keys) > 1 else 1
+    src = {k: base["universe"][k][:1] for k in keys[:cut]}          # a source tree has one version of a project
+    idx = {k: base["universe"][k] for k in keys[cut:]}
+    stack = [{"universe": src, "allow_pre": True, "source": True}]
+    if idx:
+        stack.append({"universe": idx, "allow_pre": base["allow_pre"], "source": False})
+    return {"mode": "srcextras", "universe": {}, "stack": stack, "inputs": base["inputs"], "constraints": None, "remove_constraints": False,
+            "allow_pre": base["allow_pre"], "max_downgrade": base["max_downgrade"], "only_binary": None,
+            "extras": rng.choice([[alphabet[0]], [alphabet[1]], alphabet[:2], None])}
+
+
 def gen_case(rng, alphabet: List[str], mode: Optional[str] = None) -> Dict[str, Any]:
     """One whole-compile case.  mode: None (mixed) | 'calm' | 'conflict' | 'extras' | 'dense' | 'cascade'"""
     mode = mode or rng.choice(["calm", "calm", "conflict", "conflict", "extras", "dense"])
@@ -165,6 +198,8 @@ def gen_case(rng, alphabet: List[str], mode: Optional[str] = None) -> Dict[str, 
         return gen_cascade(rng, alphabet)
     if mode == "deepconflict":
         return gen_deepconflict(rng, alphabet)
+    if mode == "srcextras":
+        return gen_srcextras(rng, alphabet)
     nproj = rng.choice([2, 3, 4, 4, 5, 6])
     projs = NAMES[:nproj]
     versions: Dict[str, List[str]] = {}
@@ -272,6 +307,7 @@ def case_line(case: Dict[str, Any], alphabet, xorder, C, U) -> str:
     toks.append(str(len(stack)))
     for layer in stack:
         toks.append("1" if layer["allow_pre"] else "0")
+        toks.append("1" if layer.get("source") else "0")
         toks += universe_tokens(layer["universe"], C, U)
     toks.append(str(len(case["inputs"])))
     for (name, reqs) in case["inputs"]:
@@ -288,6 +324,8 @@ def case_line(case: Dict[str, Any], alphabet, xorder, C, U) -> str:
     toks.append("1" if ob == ":all:" else "0")
     names = [] if ob in (None, ":all:") else [U.normalize_project_name(x) for x in ob]
     toks += [str(len(names))] + [hx(x) for x in names]
+    extras = list(case.get("extras") or [])
+    toks += [str(len(extras))] + [hx(x) for x in extras]
     return " ".join(toks)
 
 
@@ -304,7 +342,8 @@ def run_impl(case: Dict[str, Any], M, keep: bool = False, clear_caches: bool = T
     Repo = make_repo_class(R, C, E, U)
     if case.get("stack"):
         import req_compile.repos.multi as MU
-        repo = MU.MultiRepository(*[Repo(l["universe"], l["allow_pre"]) for l in case["stack"]])
+        SrcRepo = make_source_repo_class(Repo)
+        repo = MU.MultiRepository(*[(SrcRepo if l.get("source") else Repo)(l["universe"], l["allow_pre"]) for l in case["stack"]])
     else:
         repo = Repo(case["universe"], case["allow_pre"])
     mk = lambda name, reqs: C.DistInfo(name, None, [U.parse_requirement(r) for r in reqs], meta=True)
@@ -327,7 +366,7 @@ def run_impl(case: Dict[str, Any], M, keep: bool = False, clear_caches: bool = T
       with contextlib.redirect_stderr(buf):
         ob = case.get("only_binary")
         only_binary = None if ob is None else (CP.AllOnlyBinarySet() if ob == ":all:" else {U.normalize_project_name(x) for x in ob})
-        results, roots = CP.perform_compile(inputs, repo, constraint_reqs=cons,
+        results, roots = CP.perform_compile(inputs, repo, constraint_reqs=cons, extras=(case.get("extras") or None),
                                             remove_constraints=case["remove_constraints"],
                                             max_downgrade=case["max_downgrade"], only_binary=only_binary)
         out = {"kind": "OK", "graph": graphenc.obs_graph(results, with_bc=False), "roots": sorted(r.key for r in roots)}
